@@ -1,6 +1,8 @@
 """Shared glue: run one generated program on W-ENGINE and package the result."""
 from __future__ import annotations
 
+import os
+
 from typing import Any, Callable
 
 from sim.loop import SimCap, SimDeadlock
@@ -57,7 +59,7 @@ def simulate(tape, cfg: dict[str, Any], check: Callable, *, gen=gen_spec, scenar
         if nt or world.violations or want_trace:
             res["sample"] = {"program": _compact(spec), "trace_excerpt": world.trace.excerpt(40)}
         if world.violations or want_trace:
-            res["trace_excerpt"] = world.trace.excerpt(400)
+            res["trace_excerpt"] = world.trace.excerpt(int(os.environ.get("VERIF_TRACE_LIMIT", "400")))
         return res
     finally:
         world.close()
